@@ -226,7 +226,7 @@ def judge_c15(plan, result):
         sid = key.split("|")[0] if key else None
         spec = specs.get(sid)
         got = _cls(res)
-        if res.get("r") == "skip" and res.get("why") == "no-evaluable":
+        if res.get("r") == "skip" and res.get("why") in ("no-evaluable", "no-object"):
             continue
         cancelled = res.get("r") == "ABORTED"
         if cancelled:
